@@ -171,5 +171,20 @@ struct TwinPool {
 };
 inline const TwinPool& twin_pool() { static TwinPool p; return p; }
 
+// uint64 keys whose coupon has slot address 0 (all 26 address bits zero; found by a scan of 2^28 keys with the reference hash, one key in
+// 2^26 qualifies) - an address that looks like "no entry" wherever an implementation tests the address instead of the whole coupon.
+// Verified against the reference hash when first used.
+inline const std::vector<uint64_t>& zero_addr_keys() {
+  static const std::vector<uint64_t> keys = [] {
+    std::vector<uint64_t> v;
+    for (uint64_t k : {37587675ull, 42064733ull, 204235954ull, 222051002ull}) {
+      uint32_t c;
+      if (ref_hll_item_coupon(Item{T_U64, k}, c) && (c & 0x3ffffffu) == 0) v.push_back(k);
+    }
+    return v;
+  }();
+  return keys;
+}
+
 }  // namespace vf
 #endif
